@@ -54,21 +54,34 @@ def plan_for(ops, tier, rnd):
     return inj, exhaustive, K
 
 
-def run_injection(built, proj, expected, k, action, rules):
+def run_injection(built, proj, expected, k, action, rules, xdev=False):
+    import shutil
     with core.Box(tag="c07") as box:
         cfg = proj.materialise(box)
-        rec = core.run_breadlog(built, box, cfg, rules=rules, timeout=120)
+        td = fault.foreign_tmpdir(box) if xdev else None
+        try:
+            rec = core.run_breadlog(built, box, cfg, rules=rules, timeout=120, tmpdir=td)
+        finally:
+            if td:
+                shutil.rmtree(td, ignore_errors=True)
         states, ids = fault.post_state(proj, box, expected)
         other = fault.others_changed(proj, box)
-        cfg_ok = open(cfg, "rb").read()
     fired = [o for o in (rec.shim or []) if o["fired"]]
     return rec, states, other, fired
 
 
 def work(job):
-    built, pi, proj, expected, k, action, rules, phase = job
+    built, pi, proj, expected, k, action, rules, phase = job[:8]
+    xdev = job[8] if len(job) > 8 else False
     res = {"evaluations": 1, "nontrivial": [], "violations": [], "samples": [], "inconclusive": {}, "counters": {}}
-    rec, states, other, fired = run_injection(built, proj, expected, k, action, rules)
+    rec, states, other, fired = run_injection(built, proj, expected, k, action, rules, xdev)
+    if xdev:
+        phase = "xdev:" + phase
+        res["counters"]["cross_device_tmpdir_injections"] = 1
+    if ";" in (rules or ""):
+        phase = "after-fault:" + phase
+        res["counters"]["second_order_injections"] = 1
+        fired = [o for o in fired if o["fired"].startswith("kill")] if any(o["fired"].startswith("kill") for o in fired) else []
     if rec.timed_out:
         res["inconclusive"]["timeout"] = 1
         return res
@@ -80,7 +93,7 @@ def work(job):
         return res
     if rec.panicked():
         res["inconclusive"]["run-panicked (C17's business)"] = 1
-    res["nontrivial"].append("%s|%d|%s" % (proj.label, k, action))
+    res["nontrivial"].append("%s|%s|%s|%s" % (proj.label, k, action, "x" if xdev else ""))
     res["counters"]["fired_%s" % (action if action.startswith("kill") or action == "short" else "errno")] = 1
     res["counters"]["phase_%s" % phase] = 1
     for st in set(states.values()):
@@ -93,7 +106,7 @@ def work(job):
         res["violations"].append({"signature": "C07.%s|%s|%s" % (s, act_class, phase),
                                   "detail": {"file": rel, "state": s, "k": k, "action": action, "phase": phase, "end": rec.ended(),
                                              "fired": fired[:1], "ops_tail": [(o["n"], o["kind"], os.path.basename(o["path"]), o["bytes"]) for o in (rec.shim or [])[-6:]]},
-                                  "case": {"project": pi, "k": k, "action": action, "rules": rules}})
+                                  "case": {"project": pi, "k": k, "action": action, "rules": rules, "xdev": xdev}})
         break
     if other:
         res["violations"].append({"signature": "C07.other-project-file-changed|%s|%s" % (act_class, phase), "detail": {"files": other},
@@ -142,6 +155,32 @@ def main(tier):
                              {"project": pi, "k": 0, "action": "none", "rules": None})
         for k, action, rules in inj:
             jobs.append((built, pi, proj, expected, k, action, rules, fault.phase_of(ops[k - 1])))
+        # second-order points: after a failed rename / temp create the run continues on an error path with operations the
+        # clean run never performs; every one of those is a crash point too (fault at k, then kill before/after each later op j)
+        first_order = [(k, a, r) for k, a, r in inj if not a.startswith("kill") and a != "short" and ops[k - 1]["kind"] in ("rename", "openw")]
+        cap2 = 6 if tier == "quick" else 40
+        for k, a, r in first_order[:cap2]:
+            rec1, _, _, fired1 = run_injection(built, proj, expected, k, a, r)
+            if not fired1 or not rec1.shim:
+                continue
+            K1 = len(rec1.shim)
+            for j in range(k + 1, K1 + 1):
+                o = rec1.shim[j - 1]
+                for act in ("kill-before", "kill-after"):
+                    jobs.append((built, pi, proj, expected, "%d+%d" % (k, j), a + "+" + act, "%s;n=%d,act=%s" % (r, j, act), fault.phase_of(o)))
+        # a genuine cross-device TMPDIR: every rename fails with a real EXDEV; all operations of that run are crash points
+        if pi in (0, 3) or tier == "thorough":
+            xops, _, xrec, _, _ = fault.clean_reference(built, proj, xdev=True)
+            if xops and any(o["kind"] == "rename" and o["errno"] == 18 for o in xops):
+                ktable[proj.label]["K_cross_device"] = len(xops)
+                xks = [o["n"] for o in xops if o["kind"] != "write"] + [o["n"] for o in xops if o["kind"] == "write"][:30]
+                for k in sorted(set(xks)):
+                    for act in ("kill-before", "kill-after"):
+                        jobs.append((built, pi, proj, expected, k, act, "n=%d,act=%s" % (k, act), fault.phase_of(xops[k - 1]), True))
+                    if xops[k - 1]["kind"] in ("write", "openw", "rename"):
+                        jobs.append((built, pi, proj, expected, k, "EIO", "n=%d,act=errno:5" % k, fault.phase_of(xops[k - 1]), True))
+            else:
+                ktable[proj.label]["K_cross_device"] = "no second filesystem available"
     audit = blind_spot_audit(built, ps[0])
     ck.extra["blind_spot_audit"] = audit
     if audit.get("missed"):
@@ -154,7 +193,9 @@ def main(tier):
     ck.exhaustive = allexh
     ck.rule = ("for each driven project the clean run's K filesystem operations are re-measured (shim); every k in 1..K x {kill-before, "
                "kill-after} and every k whose kind admits it x {EIO, ENOSPC, EACCES, EROFS, EDQUOT, EMFILE, EXDEV(rename), short "
-               "write} is injected in a fresh sandbox (for the >64 KiB / >1 MiB files: all non-write ops, the first and last 20 "
+               "write} is injected in a fresh sandbox; second-order points (a failed rename / temp create at k, then a kill before/after "
+               "every later operation j of that error path) and a run with TMPDIR on another filesystem (genuine EXDEV, every operation "
+               "a crash point) are enumerated as well (for the >64 KiB / >1 MiB files: all non-write ops, the first and last 20 "
                "writes and a seeded sample of the middle; exhaustive:true only when every project was enumerated completely); "
                "post-state of every source file classified original / complete / torn by the insertion decomposition against the "
                "clean run's insertion offsets; distinct_nontrivial = distinct (project, k, action) whose injection fired")
@@ -208,8 +249,8 @@ def replay_witness(w, ck=None, built=None):
     ops, after, rec, expected, lock = fault.clean_reference(built, proj)
     if not c.get("rules"):
         return any(fault.phase_of(o) in ("src-write-through-name", "src-open-for-writing") for o in ops)
-    phase = fault.phase_of(ops[c["k"] - 1]) if c["k"] - 1 < len(ops) else "?"
-    r = work((built, c["project"], proj, expected, c["k"], c["action"], c["rules"], phase))
+    phase = "?"
+    r = work((built, c["project"], proj, expected, c["k"], c["action"], c["rules"], phase, c.get("xdev", False)))
     return bool(r["violations"])
 
 
